@@ -161,7 +161,14 @@ def cache_scope(ctx):
     ctx.check(norm(bind.get("blobs_to_delete")) == "sig_blobs", "blobs-to-delete", ctx.where(f, calls[0]), "checksig does not receive the full signature list for FindAndDelete")
     muts = [w for w in writes_in(f) if w.text.startswith("sig_blobs.") or w.text.startswith("sig_blobs[")]
     ctx.check(not muts and "sig_blobs" not in df.assignments(f.node), "blobs-unmodified", ctx.where(f), "checksigs modifies sig_blobs while a digest computed from it is cached")
-    ctx.check("sig_blobs_remaining = list(sig_blobs)" in norm(f.node), "blobs-work-copy", ctx.where(f), "checksigs consumes sig_blobs itself instead of a copy")
+    # what the loop consumes is a container of its own: no local that is mutated may be (an alias of) a parameter
+    params = set(f.params())
+    stale = []
+    for w in writes_in(f):
+        recv = w.node.func.value if isinstance(w.node, ast.Call) and isinstance(w.node.func, ast.Attribute) else None
+        if isinstance(recv, ast.Name) and recv.id not in params and not w.fresh:
+            stale.append("%s (%s)" % (w.text, w.why))
+    ctx.check(not stale, "blobs-work-copy", ctx.where(f), "checksigs consumes a list that is not its own copy: %s" % "; ".join(stale))
 
 
 # ------------------------------------------------------------------ C06.3
